@@ -259,15 +259,22 @@ def run(tier, rep):
     l1(rep, tier)
     recs, metas = record_samples(pa, rng, 400 if quick else 8000, rep)
     B = 2000
+    ambiguous = [0]
     for i in range(0, len(recs), B):
         res, verdicts = judge(recs[i:i + B], label=f"TraceShuffle batch {i // B}")
         rep.add_tlc(res)
         for k, names in verdicts.items():
+            if "Ambiguous" in names:      # too many ways of assigning the logged pivots to EMPTY sampled annotators: pivot clauses not judged
+                ambiguous[0] += 1
+                names = set(names) - {"Ambiguous"}
             key = classify(recs[i + k], names)
             if key:
                 rep.violation(key, {"clauses": sorted(names), "meta": metas[i + k]})
     rep.traces += len(recs)
     rep.sample({"record": recs[0], "meta": {k: v for k, v in metas[0].items() if k != "reference"}})
+    rep.extra["samples_too_ambiguous_for_the_pivot_clauses"] = ambiguous[0]
+    if ambiguous[0] * 10 > len(recs):
+        raise MachineryError(f"vacuity: {ambiguous[0]} of {len(recs)} samples too ambiguous to judge their pivots")
     rep.extra["samples_by_mode"] = {"int_pivot": sum(r["mode"] for r in recs), "float_pivot": sum(1 - r["mode"] for r in recs)}
 
 
